@@ -28,6 +28,9 @@ GRID = refbucket.GRID
 UNAVAILABLE = {"flag": False}
 
 
+_BUF = []
+
+
 class _Subst:
     """replace the hash position from outside, with a canary counting consultations"""
 
@@ -103,7 +106,8 @@ def judge_a(case):
                 elif case["via"] == "cum":
                     got = sut.binning().deterministic_choice("unit", labels, cum_weights=list(itertools.accumulate(nums)))
                 else:
-                    got = sut.binning().deterministic_choice("unit", labels, weights=nums)
+                    _BUF[:] = nums  # one list object, edited in place from case to case, as a long-lived caller would
+                    got = sut.binning().deterministic_choice("unit", labels, weights=_BUF)
             except Exception as e:
                 viol.append("raised %s: %s for weights %r at k=%d" % (type(e).__name__, e, ws, k))
                 continue
